@@ -39,7 +39,7 @@ CHECKS = {
          'Independence of copies and "caller\'s FITS WCS object never modified" are measured (the model is purely '
          'functional). External transforms as Section hypotheses.',
          'DESIGN.md section 6 (corrector algebra)'),
-'Coq proof (weighted least-squares optimality of fit_shifts / fit_rscale incl. reflections / fit_rshift / '
+ 'C06': ('Coq proof (weighted least-squares optimality of fit_shifts / fit_rscale incl. reflections / fit_rshift / '
          'fit_general for every list and weighting; exact recovery) + per-run correspondence evaluated inside Coq',
          'Machine-checked optimality theorems for an exact-rational model of each single-shot fitter (all list '
          'lengths, all non-negative weights, both reflection branches; rshift via a root-free Cauchy-Schwarz '
